@@ -21,6 +21,9 @@ var urlTypes = []TypeD{
 	{Name: "self", Rels: []RelD{{"me", false, "self", ""}}},
 	// field names that differ by case only
 	{Name: "cs", Attrs: []AttrD{{"n", kStr}, {"N", kStr}, {"Nn", kInt}}},
+	// type names that are legal member names but not plain ASCII words
+	{Name: "caf\u00e9", Attrs: []AttrD{{"n", kStr}, {"m", kStr}}},
+	{Name: "my type", Attrs: []AttrD{{"n", kStr}}},
 }
 
 var urlSchemas = map[bool]*j.Schema{}
@@ -84,7 +87,7 @@ func (d *TypeD) fieldNames() []string {
 }
 
 // representative paths crossed with the query menu
-var urlPaths = []string{"/a", "/a/1", "/a/1/r", "/a/1/rr", "/a/1/relationships/rr", "/a/1/relationships/r", "/a/1/ab", "/b", "/b/1/s", "/c/1/t", "/one", "/none", "/self", "/self/1/me", "/nope", "", "/cs"}
+var urlPaths = []string{"/a", "/a/1", "/a/1/r", "/a/1/rr", "/a/1/relationships/rr", "/a/1/relationships/r", "/a/1/ab", "/b", "/b/1/s", "/c/1/t", "/one", "/none", "/self", "/self/1/me", "/nope", "", "/cs", "/caf%C3%A9", "/my%20type/1"}
 
 type qParam struct {
 	name, val string
@@ -105,6 +108,12 @@ func urlMenu() []qParam {
 	add("fields[]", "x")
 	add("fields[c]", "t")
 	add("fields[cs]", "n,N", "N,n", "Nn,n,N")
+	// a name that is a field of ANOTHER type only
+	add("fields[b]", "y", "y,x")
+	add("fields[a]", "s")
+	// a type whose name is not plain ASCII
+	add("fields[caf%C3%A9]", "n", "n,m")
+	add("fields[my%20type]", "n")
 	// unknown names that differ from real ones by letter case only
 	add("fields[a]", "X", "x,X", "Yx,R")
 	add("sort", "X", "-Y,x")
@@ -134,12 +143,12 @@ func GenURL(x *mc.Exec, maxParams int) (raw string, params []qParam, path string
 	return GenURLReduced(x, maxParams, maxParams)
 }
 
-// urlMenuReduced: the first two instances of every parameter name
+// urlMenuReduced: the first instance of every parameter name
 func urlMenuReduced() []qParam {
 	seen := map[string]int{}
 	var m []qParam
 	for _, p := range urlMenu() {
-		if seen[p.name] < 2 {
+		if seen[p.name] < 1 {
 			m = append(m, p)
 		}
 		seen[p.name]++
@@ -155,6 +164,10 @@ func GenURLReduced(x *mc.Exec, maxParams, fullUpTo int) (raw string, params []qP
 		menu := full
 		if i >= fullUpTo {
 			menu = reduced
+			// parameters beyond the full ones only on four representative paths
+			if path != "/a" && path != "/a/1/rr" && path != "/b" && path != "/cs" {
+				break
+			}
 		}
 		c := x.Choose(len(menu)+1, "param")
 		if c == len(menu) {
